@@ -48,7 +48,7 @@ LEVEL = 'exploration'
 RULE = ('cases = (machine class str|bytes|promote|bytes-fsm, regex AST, input, chunking). Exhaustive tier: every AST up to '
         'the size bound over atoms {a, b, ., [^a], [ab]} with *, +, ?, {2}, {1,2}, {2,}, cat, alt  x  every string over '
         '{a,b,c} up to the length bound, on cpppo.regex (input in one piece) and on cpppo.regex_bytes (one symbol per '
-        'chunk); and for S in {π, €}: every AST up to 3 (thorough 4) nodes over {S, ., [^S]} x every UTF-8 text over {a,S,S\'} up to 4 '
+        'chunk); and for S in {π, €}: every AST up to 3 (thorough 4) nodes over {S, ., [^S]} x every UTF-8 text over {a,S,S\',S\'\'} (S\' differs in the last byte, S\'\' shares only the lead byte) up to 4 '
         'characters (also cut inside the last character) and every AST over {S} x every short string over the bytes of S,S\', on '
         'cpppo.regex_bytes. Random tier: Hypothesis ASTs up to 12 nodes over {a,b,c,π,€} (str) or one of the bytes '
         'profiles (also regex_bytes built from a greenery.fsm without an anything-else symbol), inputs up to 24 symbols produced by a walk that mostly follows viable symbols of the reference '
@@ -80,6 +80,19 @@ STEP_CAP = 4000
 def sibling(ch):
     """The character whose UTF-8 encoding differs from ch's only in the last byte."""
     return chr(ord(ch) ^ 1)
+
+
+def cousin(ch):
+    """For a character of >= 3 UTF-8 bytes: a character sharing only the lead byte (second byte differs); else None."""
+    enc = ch.encode('utf-8')
+    if len(enc) < 3:
+        return None
+    other = bytes([enc[0], enc[1] ^ 0x06]) + enc[2:]
+    try:
+        out = other.decode('utf-8')
+    except UnicodeDecodeError:
+        return None
+    return out if len(out) == 1 and out.encode('utf-8')[0] == enc[0] and out.encode('utf-8')[1] != enc[1] else None
 
 
 # ------------------------------------------------------------------------------------------------
@@ -164,6 +177,13 @@ def plan_for(mode, ast):
         if R.has_wildcard(ast):
             p.profile = 'mb+wild'
             p.universe = ['a', 'b', 'c', p.sym, sibling(p.sym)]
+            if cousin(p.sym):
+                # a character sharing only S's lead byte is, under the documented approximation, two "anychars": the lead
+                # byte(s) of S followed by a byte that does not continue S, and then each remaining byte on its own
+                ce, k = cousin(p.sym).encode('utf-8'), 1
+                while ce[k] == p.enc[k]:
+                    k += 1
+                p.universe += [ce[:k + 1]] + [ce[j:j + 1] for j in range(k + 1, len(ce))]
             p.matcher = R.Matcher(R.lower_bytes(ast, set(p.universe)))
         else:
             p.profile = 'mb'
@@ -241,7 +261,7 @@ def obs_json(o):
 
 def text_prefix_over(inp, universe):
     """inp (bytes) is a byte-prefix of the UTF-8 encoding of a text over `universe`?"""
-    encs = [c.encode('utf-8') for c in universe]
+    encs = [c if isinstance(c, bytes) else c.encode('utf-8') for c in universe]
     i = 0
     while i < len(inp):
         for e in encs:
@@ -529,7 +549,8 @@ def shard_exhaustive_mb(job):
     wild = R.enum_upto(size, [['lit', sym], ['dot'], ['cls', [sym], True]], EX_REPS)
     pure = R.enum_upto(size, [['lit', sym]], EX_REPS)
     texts = set()
-    for w in R.strings_upto(['a', sym, sib], length):
+    letters = ['a', sym, sib] + ([cousin(sym)] if cousin(sym) else [])      # S', S'': same lead bytes / same lead byte only
+    for w in R.strings_upto(letters, length):
         b = ''.join(w).encode('utf-8')
         texts.add(b)
         if b:
